@@ -2,6 +2,7 @@ use ahash::AHashSet;
 use std::fmt::{Display, Formatter};
 use std::io::{Error, ErrorKind};
 
+use crate::core::consensus::golden_ticket::GOLDEN_TICKET_SIZE;
 use crate::core::consensus::blockchain::Blockchain;
 use log::{debug, error, trace, warn};
 use num_derive::FromPrimitive;
@@ -998,6 +999,15 @@ impl Transaction {
         // when reversing/unwinding the chain and have been spent previously.
         if self.transaction_type == TransactionType::Fee {
             return true;
+        }
+
+        // a golden ticket transaction carries a golden ticket: everything downstream decodes the
+        // payload of a transaction of this type without looking at its length again
+        if self.transaction_type == TransactionType::GoldenTicket
+            && self.data.len() != GOLDEN_TICKET_SIZE
+        {
+            error!("ERROR: golden ticket transaction with a payload that is not a golden ticket");
+            return false;
         }
 
         //
